@@ -1,9 +1,14 @@
 package el
 
 import (
+	"github.com/pkg/errors"
 	"regexp"
 	"strings"
 )
+
+// maxReplacements bounds ReplaceAllContent: replacement texts may contain further expressions
+// (a configured value that quotes another key), so a circular reference would never run dry.
+const maxReplacements = 1000
 
 type Helper interface {
 	MatchString(s string) bool
@@ -37,10 +42,13 @@ func (e *elHelper) content(elr string) string {
 
 func (e *elHelper) ReplaceAllContent(s string, f func(content string) (string, error)) (string, error) {
 	var result = s
-	for true {
+	for i := 0; ; i++ {
 		elr := e.FindString(result)
 		if elr == "" {
 			break
+		}
+		if i >= maxReplacements {
+			return "", errors.Errorf("'%s' is still not resolved after %d replacements, circular reference?", s, maxReplacements)
 		}
 		r, err := f(e.content(elr))
 		if err != nil {
